@@ -303,6 +303,8 @@ def judge(rec, p, text, matcher, nodes, tag="match"):
         elif not same_caps(dict(caps), exp_caps):
             rec.violation(f"C08|{tag}|captures|{_feature(p)}", {"pattern": text, "node": ni}, "capture dict differs from the objects matched",
                           expected=show_caps(exp_caps, nodes), observed=show_caps(dict(caps), nodes))
+        if type(caps) is dict:   # the capture dict belongs to the caller: what is added to it must not show in any later result
+            caps["scribbled by the caller"] = node
     return hit, miss
 
 
